@@ -49,7 +49,7 @@ def q(x):
 TOP = {"kepler": "K", "com": "C", "jump": "J", "kick": "V", "lf_drift": "lfD", "lf_kick": "lfV", "sei_H": "seiH", "sei_phi": "seiP",
        "j_drift": "jD", "j_kick": "jV", "m_kick": "mV", "m_jump": "mJ", "m_com": "mC", "m_kepler": "mK", "m_enc": "mE",
        "w5_kepler": "K", "w5_com": "C", "w5_jump": "J", "w5_kick": "V"}
-FOREIGN = ("col_", "crit_", "serve_", "ce_sync", "fin_sync", "hb_", "tr_", "ias_")      # events of other specifications (collisions, server protocol)
+FOREIGN = ("col_", "crit_", "serve_", "ce_sync", "fin_sync", "hb_", "tr_", "ias_", "bs_")      # events of other specifications (collisions, server protocol)
 IGNORE = {"step_b", "step", "sync_b", "sync_e", "ksolve", "j_toint", "check_exit", "int_begin", "int_end"}
 
 
